@@ -19,7 +19,9 @@ def run(tier, rep, work):
         g = hybfam.model_check(rep, d, cfgbits, 3 if quick else 4)
         st = 6 if quick else 4
         hybfam.run_trace(rep, work, exe, d, "C05", tier, "gen/" + hybfam.bits(cfgbits), g[C.seed() % st::st], cfgbits, 0, C.seed(), n); n += 1
-    hybfam.run_trace(rep, work, exe, d, "C05", tier, "random", None, 7, 1500 if quick else 15000, C.seed(), n)
+    hybfam.run_trace(rep, work, exe, d, "C05", tier, "random", None, 7, 1500 if quick else 15000, C.seed(), n); n += 1
+    # an IVF vector sub-index searched at full probe through the hybrid builder (exact, so the same oracle applies; exercises the nprobes pass-through)
+    hybfam.run_trace(rep, work, exe, d, "C05", tier, "random/ivf-full-probe", gen7[(C.seed() + 3) % stride::stride * 3], 7, 500 if quick else 5000, C.seed() + 1, n, vec="ivf")
     rep.cov["exhaustive"] = True
     rep.cov["rule"] = ("TLC enumerates every history of hybrid Add / failing Add / Remove / Flush / Reload up to 4 operations over 2 ids and 5 document templates (documents with any subset of "
                        "modalities) for the configured sub-index combinations; a stride of those histories is replayed on a real hybrid index (flat squared-L2 on a 1-D lattice, BM25, roaring metadata), "
@@ -28,6 +30,6 @@ def run(tier, rep, work):
                        "random queries (filters and filter groups through both builder methods). Every result list is judged by Hybrid.tla: exists an admissible per-modality top-k (ties quantified), "
                        "fused score at 10^-6, descending, truncated to k; unconfigured modality => error. Non-trivial = has a write and a search; distinct by content hash.")
     rep.cov["trusted_base"] = ["TLC", "BM25 fixed point (see C03)", "lattice distances are exact integers", "reference tokenisation of the harness"]
-    rep.cov["not_explored"] = ["approximate vector sub-indexes (ivf / hnsw membership clause): the vector sub-index is the exact flat index", "several text queries in one hybrid search", "k <= 0 (the property quantifies k >= 1)"]
+    rep.cov["not_explored"] = ["partial probes / HNSW as vector sub-index (membership clause): the vector sub-index is flat, or IVF probing every cluster", "several text queries in one hybrid search", "k <= 0 (the property quantifies k >= 1)"]
     rep.assumptions += ["when both modalities are queried and one returns nothing the other modality's raw scores are accepted (DESIGN 6, C05)",
                         "when a filter matches nothing and an unconfigured modality is queried, either an empty result or an error is accepted"]
